@@ -155,12 +155,6 @@ def orphanWitness : List Record :=
   [{ time := 0, length := 4, dt := 1, channel := 0, recordI := 1, pulseLength := 8, area := 0, reductionLevel := 0,
      baseline := ⟨0, 1⟩, baselineRms := ⟨0, 1⟩, ampBitShift := 0, data := [0, 3, 0, 0] }]
 
-/-- **The full link statement is false for the code as it is**: the lone fragment is linked to itself. -/
-theorem links_next_counterexample :
-    (match recordLinks orphanWitness with
-     | .ok (prev, next) => (prev, next)
-     | .error _ => ([], [])) = ([-1], [0]) := by decide
-
 /-! ## cut_outside_hits -/
 
 /-- **A sample survives iff a hit covers it; everything else is zeroed; metadata untouched** (all inputs).
@@ -383,5 +377,13 @@ def halfWay : Record :=
 
 /-- a positive baseline denominator (hypothesis of `integrate_consistent`); 2 + 2.5 is rounded to the even 4 -/
 example : decide (0 < halfWay.baseline.den) = true ∧ (integrateOne halfWay).area = 4 := by decide
+
+/-! (kept last: it needs no axiom at all) -/
+
+/-- **The full link statement is false for the code as it is**: the lone fragment is linked to itself. -/
+theorem links_next_counterexample :
+    (match recordLinks orphanWitness with
+     | .ok (prev, next) => (prev, next)
+     | .error _ => ([], [])) = ([-1], [0]) := by decide
 
 end Strax.C18
